@@ -266,7 +266,11 @@ func TestC07Enum(t *testing.T) {
 		strs = append(strs, "-", "*", "-x", "*x", "x-y", "x*", "(", ")", ":", "@", ",", "a:b", "a@b", "a,b", "(a)", "/", "/re/", "/x", "x/y", "AND", "OR", "and", "A ND",
 			"\t", "\n", "a\tb", "a\u00a0b", "\x00", "\xff", "a\xffb", "\xc3", "é", "日本語", "\u2028", "\\n", "\\x", "\\\\", "\"\"", "'", "`", "$", "a\\", "\\\"", "a\\\"b", ".name", ".fullname", ".file", "/gomaxprocs", "/size", "k", strings.Repeat("ab", 50),
 			// ordinary keys that merely begin like a reserved one
-			".configs", ".config.x", ".config dir", ".config ", ".units", ".unit2", ".unit ", ".names", ".fullnames", ".fullname ", ".conf", ".uni", "/gomaxprocs2", " ", "  ", "\t ")
+			".configs", ".config.x", ".config dir", ".config ", ".units", ".unit2", ".unit ", ".names", ".fullnames", ".fullname ", ".conf", ".uni", "/gomaxprocs2", " ", "  ", "\t ",
+			// ordinary words that merely begin (or end) like an operator word
+			"OR-tools", "AND-gate", "OR*", "AND*x", "ORx", "ANDROID", "OR-", "AND-", "ORé", "A-ND", "xAND", "x-OR", "AND/OR", "OR.", "AND=1", "ORAND", "or-tools", "And",
+			// letters whose UTF-8 encoding contains a byte that is white space in Latin-1 (0x85, 0xa0)
+			"città", "Å", "ą", "àb", "xà", "Åx", "\u0080", "a\u0080b", "\u00a0", "\u0085", "x\u00a0", "日本à語")
 		for _, s := range strs {
 			for _, form := range []string{"quote", "x", "mixed", "bare"} {
 				if !yield(mkWord(s, form)) {
@@ -286,7 +290,7 @@ func GenWord(t *rapid.T) WordCase {
 	case 1:
 		s = rapid.StringOfN(rapid.RuneFrom([]rune(`"\ ():@,-*/ab.é`+"\t\n\x00")), 0, 12, -1).Draw(t, "special")
 	case 2:
-		s = rapid.SampledFrom([]string{"/", ".", "-", "*", "", ".config", ".unit", ".name", ".fullname", ".file", "/gomaxprocs"}).Draw(t, "lead") + rapid.StringMatching(`[a-zA-Z0-9_.=/ -]{0,10}`).Draw(t, "wordy")
+		s = rapid.SampledFrom([]string{"/", ".", "-", "*", "", ".config", ".unit", ".name", ".fullname", ".file", "/gomaxprocs", "AND", "OR", "à", "Å"}).Draw(t, "lead") + rapid.StringMatching(`[a-zA-Z0-9_.=/ -]{0,10}`).Draw(t, "wordy")
 	default:
 		s = rapid.String().Draw(t, "any")
 		if len(s) > 40 {
